@@ -23,14 +23,15 @@ AXES = {
     "nfiles": [None, 0, 3],
     "isexec": [False, True],
     "version_id": [None, "", "v1"],
-    "etag": [None, "", "e-tag"],
+    "etag": [None, "", "e-tag", '"0x8DA1A2B3"'],   # (cloud etags come quoted and in mixed case)
     "checksum": [None, "c"],
     "md5": [None, H],
     "remote": [None, "r"],
     "inode": [None, 7],
     "mtime": [None, 1.5],
 }
-HASHES = [None, ("md5", H), ("md5", H + ".dir"), ("etag", "abc"), ("md5-dos2unix", H), ("checksum", "cs")]
+HASHES = [None, ("md5", H), ("md5", H + ".dir"), ("etag", "abc"), ("md5-dos2unix", H), ("checksum", "cs"),
+          ("md5", H.upper()), ("etag", '"0x8DA1B2C3D4E5F60"'), ("checksum", "Q2hlY2tTdW0=")]
 LOADED = [None, True, False]
 
 
@@ -173,6 +174,7 @@ def run_dicts(case):
 
 KEYSETS = [
     [("a",), ("é", "ü x"), ("d",)],
+    [("caf\u00e9",), ("cafe\u0301",), ("d", "\u212b")],   # NFC and NFD spellings of one name are different keys
     [("ключ",), ("d", "s", "t"), ("d", "s")],
 ]
 
